@@ -43,6 +43,11 @@ def retryExact {α} [BEq α] (recs : List α) (calls : List (List α)) (outs : L
   (List.range (calls.length - 1)).all fun n =>
     calls[n + 1]? == some (nextOf (calls.getD n []) (outAt outs n))
 
+/-- C05 at the sink: every `PutRecords` call submits records of the batch in the batch's order (each call is a
+sub-list, in order, of the batch) -/
+def callsInOrder {α} [BEq α] (recs : List α) (calls : List (List α)) : Bool :=
+  calls.all fun c => c.isSublist recs
+
 inductive Verdict | skip | ok | viol (what : String)
 deriving DecidableEq, Repr
 
